@@ -445,6 +445,13 @@ func (w *World) Solve(ob *Obligation, cfg *SolveConfig, idx int) {
 			} else if culprit >= 0 && ob.branchIdx[culprit] {
 				ob.Result = "discharged"
 				ob.Solver = "infeasible path (branch condition)"
+				// recorded for the reader: a branch that the contracts applied before it make dead is
+				// either a defensive test or a contradiction between contracts (8.5 of DESIGN.md)
+				c := full[culprit].S
+				if len(c) > 140 {
+					c = c[:140] + "..."
+				}
+				w.Note("dead branch: a returning path of " + ob.Func + " (" + ob.Pos + ") is infeasible from the branch condition " + c)
 			} else if culprit >= 0 {
 				ob.Output += fmt.Sprintf("assumption #%d makes the returning path unsatisfiable (not a branch condition): %s\n", culprit, firstLines(full[culprit].S, 3))
 				if len(full[culprit].S) > 600 {
